@@ -66,6 +66,13 @@ CHECKS = {
         "(and the negative theorems for the protocol as originally coded). Tied to the code by a differential run of generated scripts x timeout settings x {RunJavascript, condition, action} with a wall-clock oracle.",
    note="Partial. Trusted: otto semantics and its statement-boundary polling of Interrupt, Go scheduler/channels/timers as modelled, wall-clock tolerances (300 ms, 3 re-runs before a timing verdict). A script blocked in a native call is stopped at its next boundary, not at the limit. The model is hand-written, not extracted.",
    technique="Lean 4 proof over a hand-written transition-system model + differential correspondence check with timing oracle", ref="5 (C14)"),
+ "C16": dict(
+   text="Lean 4 theorems (Props/C16.lean, 19) over executable models of cron.Cron (sorted timeline, pop/in-flight/re-schedule, suspend/pause/resume, timer arming) and of crolt's jobs/time buckets, proved by induction over arbitrary operation histories and audited on every run; "
+        "comparison operators and decisive statements are regenerated from cron/cron.go and crolt/cron.go into Lean on every run; the models are tied to the code by differential runs (deterministic Add/Rem/replace histories, timed scenarios replayed with the recorded clock readings, "
+        "crolt histories on real Bolt files with reopen points, crolt reached through go test -overlay) plus direct checks of each clause on the real outputs.",
+   note="Partial: liveness of the timer is proved only for histories without Rem / capacity-rejected Add (false otherwise: finding C16-rem-head-disarms); crolt one-shot-once is proved per work-loop visit; concurrency with the firing loop is modelled as interleaving of atomic steps under the Cron mutex; "
+        "trusted: time.Timer contract and scheduling latency within tolerance, Bolt transaction atomicity, cursor behaviour under mutation, cronexpr.Next(now) > now, the go/ast extractor.",
+   technique="Lean 4 proof over hand-written models with Go-source-regenerated definitions + differential correspondence (deterministic, timed trace validation, go test -overlay for package main)", ref="5 (C16)"),
  "C17": dict(
    text="Lean 4 theorems (Props/C17.lean) over an executable model of CachedLocations (Open/Get/Release/expire, Pending, !cacheTTL, CheckExistence): results through the System equal direct operation for every cache configuration, history and clock "
         "(given reload faithfulness, the C06 statement, as explicit hypothesis); TTL independence; no creation under existence checking; single load for all schedules without the Open window, with negative theorems (decide witnesses) for the window, the boolean Pending, "
